@@ -134,7 +134,15 @@ def run(rep):
             exp = expected_events(op, res)
             bad = False
             if exp is not None:
-                bad = evs != exp
+                # any number of content-file writes between create and close
+                core = [e for e in evs if e != "os.write"]
+                if "create" in exp:
+                    exp = ["create", "os.close", "kv.set:fileContent", "kv.set:file"]
+                    i0 = evs.index("create") if "create" in evs else 0
+                    i1 = evs.index("os.close") if "os.close" in evs else len(evs)
+                    bad = core != exp or any(e != "os.write" for e in evs[i0 + 1:i1])
+                else:
+                    bad = evs != exp
             else:
                 body = evs[1:] if (op.startswith("commit") and evs[:1] == ["kv.txn"]) else evs
                 bad = len(body) % 3 != 0 or any(body[j:j + 3] != CLEAN for j in range(0, len(body), 3))
@@ -202,8 +210,7 @@ def run(rep):
         traces_validated_against_impl=checked, event_sequence_mismatches=ev_mismatch,
         samples=samples, proof_ok=proof_ok)
     rep.assumptions = ["process death (os.Exit), not power loss: Badger runs with SyncWrites=false and page-cache contents survive",
-                       "file writes of one content are not split into separate crash points in this revision (create / record / "
-                       "version-record are); a torn content file without its records is invisible by the theorems",
+                       "every File.Write and Close of a content file is a crash point too (a torn content file without its records is invisible)",
                        "one pool worker in the crashing child so that mutation numbering is reproducible"]
 
 
